@@ -420,7 +420,7 @@ impl W {
     /// reference-counted and aggregate types: every call copies (clones) from storage that all
     /// threads share
     fn constants_hammer(&mut self, case: &Case, render: bool) -> Outcome {
-        const SRC: &str = "record Conf {\n    name: String,\n    n: u64,\n    tags: List[String],\n}\nconst GREETING: String = \"hello, \";\nconst NAMES: List[String] = [\"a\", \"bb\", \"ccc\"];\nconst CONF: Conf = Conf { name: \"conf\", n: 7, tags: [\"x\", \"y\"] };\nrecord Stats {\n    sum: u64,\n    count: u64,\n    low: u8,\n}\nconst EMPTY: Stats = Stats { sum: 0, count: 0, low: 3 };\nfn m(x: u64) -> u64 {\n    let s = EMPTY;\n    s.sum = s.sum + x;\n    s.count = s.count + 1;\n    s.sum * 1000 + s.count * 10 + EMPTY.count\n}\nfn f(name: String) -> String {\n    GREETING + name\n}\nfn g(i: u64) -> String {\n    match NAMES.get(i) {\n        Some(s) => s,\n        None => \"none\",\n    }\n}\nfn h(x: u64) -> u64 {\n    let c = CONF;\n    let d = c;\n    if d.name == \"conf\" && d.tags == [\"x\", \"y\"] { d.n + x } else { 0 }\n}\nconst BUF: StringBuf = StringBuf.new();\nfn p(c: char) -> u64 {\n    BUF.push_char(c);\n    BUF.as_string().bytes().len()\n}\nfn plen() -> u64 {\n    BUF.as_string().bytes().len()\n}\n";
+        const SRC: &str = "record Conf {\n    name: String,\n    n: u64,\n    tags: List[String],\n}\nconst GREETING: String = \"hello, \";\nconst NAMES: List[String] = [\"a\", \"bb\", \"ccc\"];\nconst CONF: Conf = Conf { name: \"conf\", n: 7, tags: [\"x\", \"y\"] };\nrecord Stats {\n    sum: u64,\n    count: u64,\n    low: u8,\n}\nconst EMPTY: Stats = Stats { sum: 0, count: 0, low: 3 };\nfn m(x: u64) -> u64 {\n    let s = EMPTY;\n    s.sum = s.sum + x;\n    s.count = s.count + 1;\n    s.sum * 1000 + s.count * 10 + EMPTY.count\n}\nfn f(name: String) -> String {\n    GREETING + name\n}\nfn g(i: u64) -> String {\n    match NAMES.get(i) {\n        Some(s) => s,\n        None => \"none\",\n    }\n}\nfn h(x: u64) -> u64 {\n    let c = CONF;\n    let d = c;\n    if d.name == \"conf\" && d.tags == [\"x\", \"y\"] { d.n + x } else { 0 }\n}\nconst BUF: StringBuf = StringBuf.new();\nfn p(c: char) -> u64 {\n    BUF.push_char(c);\n    BUF.as_string().bytes().len()\n}\nfn plen() -> u64 {\n    BUF.as_string().bytes().len()\n}\nconst SA: StringBuf = StringBuf.new();\nconst SB: StringBuf = StringBuf.new();\nfn sb_ab() -> bool {\n    SA == SB\n}\nfn sb_ba() -> bool {\n    SB == SA\n}\nfn sb_probe() -> u64 {\n    SB.as_string().bytes().len() + SA.as_string().bytes().len()\n}\n";
         let empty: Vec<u8> = Vec::new();
         let ctl = case.get(2).unwrap_or(&empty);
         let mut c = Choices::new(ctl.get(1..).unwrap_or(&[]));
@@ -436,10 +436,14 @@ impl W {
         let m = pkg.get_function::<fn(u64) -> u64>("m").expect("m");
         let p = pkg.get_function::<fn(char) -> u64>("p").expect("p");
         let plen = pkg.get_function::<fn() -> u64>("plen").expect("plen");
+        let sb_ab = pkg.get_function::<fn() -> bool>("sb_ab").expect("sb_ab");
+        let sb_ba = pkg.get_function::<fn() -> bool>("sb_ba").expect("sb_ba");
+        let sb_probe = pkg.get_function::<fn() -> u64>("sb_probe").expect("sb_probe");
         let barrier = Arc::new(Barrier::new(n_threads));
         let mut hs = Vec::new();
         for t in 0..n_threads {
             let (f, g, h, m, p, barrier) = (f.clone(), g.clone(), h.clone(), m.clone(), p.clone(), barrier.clone());
+            let (sb_ab, sb_ba, sb_probe) = (sb_ab.clone(), sb_ba.clone(), sb_probe.clone());
             hs.push(std::thread::spawn(move || -> Result<(), String> {
                 barrier.wait();
                 let (mut own_pushes, mut last_len) = (0u64, 0u64);
@@ -453,6 +457,22 @@ impl W {
                             return Err(format!("thread {t}, call {i}: after its push number {own_pushes} the shared StringBuf constant has length {got} (the call before saw {last_len})"));
                         }
                         last_len = got;
+                        continue;
+                    }
+                    if i % 8 == 1 {
+                        // two StringBuf constants that nobody changes, compared in both operand orders
+                        // by different threads: always equal (and the comparison must come back)
+                        let same = if t % 2 == 0 { sb_ab.call() } else { sb_ba.call() };
+                        if !same {
+                            return Err(format!("thread {t}, call {i}: two empty StringBuf constants compared unequal ({})", if t % 2 == 0 { "SA == SB" } else { "SB == SA" }));
+                        }
+                        continue;
+                    }
+                    if i % 8 == 3 {
+                        let n = sb_probe.call();
+                        if n != 0 {
+                            return Err(format!("thread {t}, call {i}: two StringBuf constants that are never pushed to hold {n} bytes"));
+                        }
                         continue;
                     }
                     match i % 4 {
